@@ -17,6 +17,12 @@ from . import gate, outbound, pair, resend, senders
 REAL_LABELS = ("A", "B", "E")
 
 
+# a send that failed with one of these never got as far as the transport (a send that raised a transport error may
+# well have written its frame first)
+ENCODER_REFUSALS = ("UnicodeEncodeError", "RepeatingTagError", "TagNotFoundError", "EncodingError", "FIXMessageError",
+                    "DuplicatedTagError", "UnmappedRepeatedGrpError", "DuplicateSeqNoError")
+
+
 class WireMixin:
     def setup(self):
         self.foreign = collections.Counter()
@@ -84,6 +90,10 @@ class WireMixin:
                 streams.setdefault((label, cid), bytearray()).extend(data)
         unrep = {e["mid"] for side in getattr(self, "sends", {}) for e in getattr(self, "sends", {}).get(side, [])
                  if isinstance(e, dict) and e.get("unrepresentable")}
+        # (outbound host) marks of sends that were refused / raised: nothing of such a message may travel
+        failed_marks = {("S-%d" % e["k"]).encode() for e in getattr(self, "send_log", [])
+                        if isinstance(e, dict) and "k" in e and (
+                            e.get("status") == "refused" or (e.get("status") == "raised" and e.get("exc") in ENCODER_REFUSALS))}
         for (label, cid), data in streams.items():
             frames, err, rest = refframer.split_stream(bytes(data))
             n_frames += len(frames)
@@ -94,6 +104,13 @@ class WireMixin:
                                 f"bytes written by {label} on connection {cid} are not a concatenation of well-formed frames: {what}")
             for fr in frames:
                 d = refframer.fdict(fr)
+                if failed_marks and label == "E":
+                    vals = {v for (_, v) in refframer.fields(fr)}
+                    leaked = sorted(m for m in failed_marks if m in vals)
+                    if leaked:
+                        raise Violation("unrepresentable-transmitted", "C02/fields-of-a-refused-message-transmitted",
+                                        f"{label} transmitted a frame carrying field(s) of message {leaked[0].decode()} "
+                                        f"whose send had failed: {fr[:200]!r}")
                 if d.get("11") in unrep:
                     raise Violation("unrepresentable-transmitted", "C02/unrepresentable-message-transmitted/altered",
                                     f"{label} transmitted message {d.get('11')} although one of its values (a lone "
